@@ -113,6 +113,39 @@ fn must_be_inert(fp: &str, bytes: &[u8]) -> bool {
     p.err || (p.connected && p.token != Some(t))
 }
 
+/// 0.6: the token an *acceptor* generated (state `Pending`/`Online` of a side that did not connect) is
+/// neither `TOKEN_NONE` nor `TOKEN_RESERVED`
+fn reserved_own_token(fp: &str, connector: bool) -> Option<String> {
+    if connector {
+        return None;
+    }
+    let kind = fp_kind(fp);
+    if kind != "Pending" && kind != "Online" {
+        return None;
+    }
+    let t = fp_tok_after(fp, "token: Some(")?;
+    if t == [0xff; 4] || t == [0; 4] {
+        Some(tok_str(&t))
+    } else {
+        None
+    }
+}
+
+/// the acceptor's `ConnectAccept` carries the token it hands out
+fn reserved_wire_token(text: &str, connector: bool) -> Option<String> {
+    if connector {
+        return None;
+    }
+    for bad in ["ffffffff", "00000000"] {
+        if text == format!("ct:0:{}:ca", bad) {
+            return Some(bad.to_string());
+        }
+    }
+    None
+}
+
+const RESERVED_DRAWS: &[&str] = &["ffffffff,0a0b0c0d", "00000000,0a0b0c0d", "ffffffff,00000000,ffffffff,0a0b0c0d", "00000000,00000000,11223344"];
+
 fn new_accept(cb: &mut Cb, t: [u8; 4]) -> Option<cx::Connection> {
     Some(cx::Connection::new_accept_token(cb, px::Token(t)))
 }
